@@ -31,6 +31,8 @@ Lemma cap_add_l a b : cap (cap a + b) = cap (a + b).
 Proof. unfold cap. lia. Qed.
 Lemma cap_add_r a b : cap (a + cap b) = cap (a + b).
 Proof. unfold cap. lia. Qed.
+Lemma cap_add_2 a b : cap (cap a + cap b) = cap (a + b).
+Proof. now rewrite cap_add_l, cap_add_r. Qed.
 
 Lemma schema_minbal_is_spec P nu nb :
   params_w64 P -> nu < 2 ^ 64 -> nb < 2 ^ 64 -> schema_minbal P nu nb = spec_schema_cost P nu nb.
@@ -42,7 +44,7 @@ Proof.
   rewrite (addsat_cap (cap _) (cap _)) by apply cap_lt.
   rewrite (addsat_cap (cap _) (cap _)) by apply cap_lt.
   generalize (cap (p_schemaentry P * cap (nu + nb))) (p_schemauint P * nu) (p_schemabytes P * nb).
-  intros a b c. unfold cap. lia.
+  intros a b c. rewrite (cap_add_r a b), (cap_add_2 (a + b) c). reflexivity.
 Qed.
 
 (* minbal_formula: the transcribed saturating computation is the capped sum *)
@@ -59,13 +61,34 @@ Proof.
   generalize (spec_schema_cost P (a_schema_u x) (a_schema_b x)) (p_minbal P * a_assets x)
     (p_appflatparams P * a_appparams x) (p_appflatoptin P * a_applocals x)
     (p_appflatparams P * a_extrapages x) (p_boxflat P * a_boxes x) (p_boxbyte P * a_boxbytes x).
+  intros s t1 t2 t3 t4 t5 t6. set (m := p_minbal P).
+  rewrite (cap_add_r m t1), (cap_add_2 (m + t1) t2), (cap_add_2 (m + t1 + t2) t3), (cap_add_l (m + t1 + t2 + t3) s),
+    (cap_add_2 (m + t1 + t2 + t3 + s) t4), (cap_add_2 (m + t1 + t2 + t3 + s + t4) t5),
+    (cap_add_2 (m + t1 + t2 + t3 + s + t4 + t5) t6).
+  reflexivity.
+Qed.
+
+(* no term was dropped: the requirement is at least the base amount, and (below the cap)
+   one more asset holding / created app / opt-in / box raises it by exactly its price *)
+Lemma spec_min_balance_base P x : p_minbal P < 2 ^ 64 -> p_minbal P <= spec_min_balance P x.
+Proof.
+  intros H. unfold spec_min_balance.
+  generalize (spec_schema_cost P (a_schema_u x) (a_schema_b x)) (p_minbal P * a_assets x)
+    (p_appflatparams P * a_appparams x) (p_appflatoptin P * a_applocals x)
+    (p_appflatparams P * a_extrapages x) (p_boxflat P * a_boxes x) (p_boxbyte P * a_boxbytes x).
   intros. unfold cap. lia.
 Qed.
 
-(* each resource kind raises the requirement (below the cap): no term was dropped *)
-Lemma spec_min_balance_monotone P x :
-  p_minbal P <= spec_min_balance P x.
-Proof. unfold spec_min_balance, cap. destruct (N.le_ge_cases (p_minbal P) (2 ^ 64 - 1)); nia || lia. Qed.
+Lemma spec_min_balance_asset_step P x :
+  spec_min_balance P (set_asset_counts x (a_assetparams x) (a_assets x + 1)) < 2 ^ 64 - 1 ->
+  spec_min_balance P (set_asset_counts x (a_assetparams x) (a_assets x + 1)) = spec_min_balance P x + p_minbal P.
+Proof.
+  unfold spec_min_balance. cbn [set_asset_counts a_assets a_appparams a_applocals a_schema_u a_schema_b a_extrapages a_boxes a_boxbytes].
+  generalize (spec_schema_cost P (a_schema_u x) (a_schema_b x))
+    (p_appflatparams P * a_appparams x) (p_appflatoptin P * a_applocals x)
+    (p_appflatparams P * a_extrapages x) (p_boxflat P * a_boxes x) (p_boxbyte P * a_boxbytes x).
+  intros. rewrite N.mul_add_distr_l, N.mul_1_r in *. unfold cap in *. lia.
+Qed.
 
 (* ------------------------------------------------------------------ checkMinBalance *)
 Definition special (E : env) (a : N) : Prop := a = e_feesink E \/ a = e_pool E \/ a = e_spsender E.
